@@ -433,6 +433,7 @@ structure Cfg where
   fromString : Bool := false     -- WithStringValues (form, path, header)
   fromArray : Bool := false      -- WithFromArray (form)
   canonical : Bool := false      -- WithCanonicalKeyFunc(textproto.CanonicalMIMEHeaderKey) (header)
+  lower : Bool := false          -- WithCanonicalKeyFunc(strings.ToLower) (core/conf)
   pinned : Bool := false         -- behaviour of the pinned commit (see header)
   deriving Repr, DecidableEq
 
@@ -455,19 +456,25 @@ def canonLoop : Str → Bool → Str
 /-- `textproto.CanonicalMIMEHeaderKey` -/
 def canonKey (s : Str) : Str := if s.all validHeaderByte then canonLoop s true else s
 
-/-- the dependency key of `optional=dep` / `optional=!dep` under a canonical-key function: the repaired code
-canonicalises the key after the `!`; the pinned commit canonicalised the whole text, which leaves `!a` as it is -/
-def canonDep (pinned : Bool) (d : Str) : Str :=
-  if pinned then canonKey d
+/-- the dependency key of `optional=dep` / `optional=!dep` under a canonical-key function `kf`: the repaired code
+canonicalises the key after the `!`; the pinned commit canonicalised the whole text, which leaves `!a` as it is
+(`textproto.CanonicalMIMEHeaderKey` does not touch a text with an invalid header byte) -/
+def canonDep (kf : Str → Str) (pinned : Bool) (d : Str) : Str :=
+  if pinned then kf d
   else match d with
     | [] => []
-    | c :: rest => if c = '!' then '!' :: canonKey rest else canonKey (c :: rest)
+    | c :: rest => if c = '!' then '!' :: kf rest else kf (c :: rest)
+
+/-- the canonical-key function of the unmarshaler: MIME header keys (rest header parser), lower case (core/conf), none -/
+def Cfg.keyFn (c : Cfg) : Option (Str → Str) :=
+  if c.canonical then some canonKey else if c.lower then some GoZero.C08.lower else none
 
 /-- `parseOptionsWithContext`: key and dependency key through the canonical-key function -/
-def canonTag (canonical pinned : Bool) (kp : Str × Option Opts) : Str × Option Opts :=
-  if canonical then
-    (canonKey kp.1, kp.2.map fun o => if o.optionalDep.isEmpty then o else { o with optionalDep := canonDep pinned o.optionalDep })
-  else kp
+def canonTag (kf : Option (Str → Str)) (pinned : Bool) (kp : Str × Option Opts) : Str × Option Opts :=
+  match kf with
+  | some kf =>
+    (kf kp.1, kp.2.map fun o => if o.optionalDep.isEmpty then o else { o with optionalDep := canonDep kf pinned o.optionalDep })
+  | none => kp
 
 /-- the `optional` that `toOptionsWithContext` computes -/
 def effOptional (o : Opts) (key : Str) (m : Obj) : Except Err Bool :=
@@ -679,7 +686,7 @@ def fromArrayValue (c : Cfg) (isSlice : Bool) (j : J) : J :=
 
 /-- key and options of a field as the unmarshaler `c` reads them -/
 def parseTagC (c : Cfg) (name : Str) (tagValue : Str) : Except Err (Str × Option Opts) :=
-  (parseTag name tagValue).map (canonTag c.canonical c.pinned)
+  (parseTag name tagValue).map (canonTag c.keyFn c.pinned)
 
 /-- `parseOptionsWithContext` after the tag is parsed: no options stay `nil`, else `toOptionsWithContext` -/
 def resolveOpts (c : Cfg) (po : Option Opts) (key : Str) (m : Obj) : Except Err (Option Opts) :=
